@@ -73,6 +73,14 @@ pub fn family() -> Vec<(String, Cfg, bool)> {
         c.modes[0].pats[0] = CPat::new("[\\p{Foo}a]", 0);
         c.modes[0].pats[2].la = Some((false, "a$".into()));
     }, false);
+    add("second mode has the pattern list of the first, its own transitions", &|c| c.modes[1].pats = c.modes[0].pats.clone(), true);
+    add("third mode equal to the first but for its name and transitions", &|c| {
+        let mut m = c.modes[0].clone();
+        m.name = "THIRD".into();
+        m.transitions = vec![(2, 1)];
+        c.modes.push(m);
+        c.modes[1].transitions = vec![(0, 2), (1, 0)];
+    }, true);
     add("syntax error in a third mode no transition leads to", &|c| c.modes.push(CMode { name: "THIRD".into(), pats: vec![CPat::new("c(", 0)], transitions: vec![] }), false);
     add("third mode no transition leads to, with a transition back", &|c| c.modes.push(CMode { name: "THIRD".into(), pats: vec![CPat::new("c", 0), CPat::new("[ab]", 4)], transitions: vec![(0, 0)] }), true);
     v.push(("no modes at all".into(), Cfg { modes: vec![] }, true));
